@@ -225,26 +225,57 @@ impl SchemaSpec {
     }
 }
 
-fn nice_param() -> impl Strategy<Value = f64> {
-    (-24i32..=24, 0u32..=2).prop_map(|(k, s)| k as f64 / (1u32 << s) as f64)
+fn nice_param(exotic: bool) -> BoxedStrategy<f64> {
+    if !exotic {
+        // dyadic only: histories and compositions compute with these values and are judged exactly
+        return (-24i32..=24, 0u32..=2).prop_map(|(k, s)| k as f64 / (1u32 << s) as f64).boxed();
+    }
+    prop_oneof![
+        8 => (-24i32..=24, 0u32..=2).prop_map(|(k, s)| k as f64 / (1u32 << s) as f64),
+        // non-dyadic values and very unequal magnitudes: the generators store their parameters
+        // without computing with them, so the reference (built from the same f64 values) stays exact
+        1 => prop_oneof![Just(0.1), Just(0.3), Just(-0.7), Just(1.0 / 3.0), Just(2.5e-7), Just(-1e-4), Just(1e4), Just(123456.789)],
+    ]
+    .boxed()
+}
+
+fn nonneg_param(exotic: bool) -> BoxedStrategy<f64> {
+    if !exotic {
+        return (0i32..=16).prop_map(|k| k as f64 / 4.0).boxed();
+    }
+    prop_oneof![
+        8 => (0i32..=16).prop_map(|k| k as f64 / 4.0),
+        1 => prop_oneof![Just(0.1), Just(0.2), Just(0.6), Just(1e-4), Just(1e4), Just(1e16)],
+    ]
+    .boxed()
 }
 
 pub fn activation_spec() -> impl Strategy<Value = SchemaSpec> {
+    activation_spec_x(false)
+}
+
+/// `exotic`: also non-dyadic parameters and very unequal magnitudes (only for checks that do not compute
+/// with the parameters, i.e. the schema-versus-textbook comparison of C17)
+pub fn activation_spec_x(exotic: bool) -> impl Strategy<Value = SchemaSpec> {
     prop_oneof![
         3 => any::<u16>().prop_map(|row| SchemaSpec::ReLU { row }),
-        2 => (any::<u16>(), prop_oneof![Just(0.0), Just(0.5), Just(-1.0), Just(2.0), Just(0.125), nice_param()]).prop_map(|(row, alpha)| SchemaSpec::Leaky { row, alpha }),
-        2 => (any::<u16>(), nice_param(), prop_oneof![1 => Just(0.0), 5 => (0i32..=16).prop_map(|k| k as f64 / 4.0)]).prop_map(|(row, min, width)| SchemaSpec::HardTanh { row, min, width }),
-        2 => (any::<u16>(), (0i32..=16).prop_map(|k| k as f64 / 4.0)).prop_map(|(row, lambda)| SchemaSpec::HardShrink { row, lambda }),
+        2 => (any::<u16>(), prop_oneof![Just(0.0), Just(0.5), Just(-1.0), Just(2.0), Just(0.125), nice_param(exotic)]).prop_map(|(row, alpha)| SchemaSpec::Leaky { row, alpha }),
+        2 => (any::<u16>(), nice_param(exotic), prop_oneof![1 => Just(0.0), 5 => nonneg_param(exotic)]).prop_map(|(row, min, width)| SchemaSpec::HardTanh { row, min, width }),
+        2 => (any::<u16>(), nonneg_param(exotic)).prop_map(|(row, lambda)| SchemaSpec::HardShrink { row, lambda }),
         1 => any::<u16>().prop_map(|row| SchemaSpec::HardSigmoid { row }),
-        2 => (any::<u16>(), nice_param(), nice_param()).prop_map(|(row, t, v)| SchemaSpec::Threshold { row, t, v }),
+        2 => (any::<u16>(), nice_param(exotic), nice_param(exotic)).prop_map(|(row, t, v)| SchemaSpec::Threshold { row, t, v }),
     ]
 }
 
 pub fn head_spec() -> impl Strategy<Value = SchemaSpec> {
+    head_spec_x(false)
+}
+
+pub fn head_spec_x(exotic: bool) -> impl Strategy<Value = SchemaSpec> {
     prop_oneof![
         2 => Just(SchemaSpec::Argmax),
         2 => any::<u16>().prop_map(|clazz| SchemaSpec::ClassChar { clazz }),
-        1 => (prop::option::weighted(0.7, nice_param()), (0i32..=16).prop_map(|k| k as f64 / 4.0), any::<bool>()).prop_map(|(min, w, has_max)| {
+        1 => (prop::option::weighted(0.7, nice_param(exotic)), nonneg_param(exotic), any::<bool>()).prop_map(|(min, w, has_max)| {
             match (min, has_max) {
                 (Some(m), true) => SchemaSpec::InfNorm { min: Some(m), max: Some(m + w) },
                 (Some(m), false) => SchemaSpec::InfNorm { min: Some(m), max: None },
@@ -256,4 +287,8 @@ pub fn head_spec() -> impl Strategy<Value = SchemaSpec> {
 
 pub fn schema_spec() -> impl Strategy<Value = SchemaSpec> {
     prop_oneof![3 => activation_spec(), 2 => head_spec()]
+}
+
+pub fn schema_spec_x(exotic: bool) -> impl Strategy<Value = SchemaSpec> {
+    prop_oneof![3 => activation_spec_x(exotic), 2 => head_spec_x(exotic)]
 }
